@@ -519,3 +519,25 @@ Proof.
   intros ts ss gs g0 Hok HS Hg Hgs. unfold lex, render_text.
   rewrite (lex_loop_ok ts ss gs g0 []); [reflexivity|assumption..|lia].
 Qed.
+
+(* ---------------------------------------------------------------------- *)
+(* text level: printing, spelling and spacing, then lexing and parsing *)
+
+From Verif Require Import Model.Parser Model.Printer Proofs.ParserProofs.
+
+Lemma print_stmt_nonempty s : wf_stmt s = true -> print_stmt s <> [].
+Proof.
+  destruct s; cbn [wf_stmt print_stmt]; try discriminate.
+  intros H. apply andb_prop in H. destruct H as [Hs _]. destruct s; try discriminate Hs.
+  rewrite body_select. discriminate.
+Qed.
+
+Theorem text_roundtrip : forall s ss gs g0,
+  wf_stmt s = true -> lex_ok (print_stmt s) = true ->
+  Forall2 spell (print_stmt s) ss -> sep g0 -> seps_ok (print_stmt s) gs ->
+  parse_text (render_text g0 ss gs) = Some (stmt_erase s).
+Proof.
+  intros s ss gs g0 Hwf Hlex HS Hg Hgs. unfold parse_text.
+  rewrite (lex_roundtrip (print_stmt s) ss gs g0 Hlex HS); [apply stmt_roundtrip, Hwf| |exact Hgs].
+  pose proof (print_stmt_nonempty s Hwf). destruct (print_stmt s); [congruence|exact Hg].
+Qed.
